@@ -411,6 +411,21 @@ class Effects:
                             why = self.param_why.get((caller.qualname, av.id), '')
                         out.append(Retention(caller, call.lineno, norm(call)[:90], f'cache key of memoised {callee.qualname}',
                                              norm(av) + (f' (per-request because {why})' if why else '')))
+        # (a') a long-lived exception object raised during the call accumulates traceback / __cause__ / __context__
+        for f in self.tree.values():
+            for x in walk_own(f.node):
+                if isinstance(x, ast.Raise) and isinstance(x.exc, (ast.Name, ast.Attribute)):
+                    r = None
+                    if isinstance(x.exc, ast.Name):
+                        if self.ty.local_type(f, x.exc.id) is None and not any(x.exc.id in [p.arg for p in g.params] for g in self._chain(f)):
+                            b = f.module.ns.get(x.exc.id)
+                            if b is not None and b.kind == 'assign' and isinstance(b.target, ast.Call):
+                                r = f'module:{f.module.name}.{x.exc.id}'
+                    else:
+                        r = self.receiver_state(x.exc, f)
+                    if r:
+                        out.append(Retention(f, x.lineno, norm(x)[:90], f'long-lived exception object {r}',
+                                             'the raised instance keeps the traceback frames (and `from e` cause) of this request'))
         # (b) per-request values stored into long-lived objects
         for f in self.tree.values():
             for x in walk_own(f.node):
